@@ -6,7 +6,8 @@
 // date_trunc, make_timestamp, every aggregate) x 29 lines (64-bit extremes, NaN and infinities as REAL text, zero divisors,
 // huge and negative subscripts, absent groups, NULL everywhere, out-of-range date parts, dates in DST gaps of common zones,
 // malformed JSON) x 3 output formats, one line per run and all lines in one run.
-// Also: 22 x 22 lines of short / non-ASCII / numeric words through TIMESTAMP (numeric and month-name), INT, REAL, INTERVAL, BOOLEAN and array columns over captures that admit any text.
+// Also: 11 timestamps around the clock changes of Europe/Stockholm, America/Havana (midnight) and Australia/Lord_Howe (half an hour) x 11 local-time
+// expressions with TZ set to each zone in turn; 22 x 22 lines of short / non-ASCII / numeric words through TIMESTAMP (numeric and month-name), INT, REAL, INTERVAL, BOOLEAN and array columns over captures that admit any text.
 include!("verif_grid_common.rs");
 include!("verif_grid_qcommon.rs");
 
@@ -100,6 +101,29 @@ fn verif_grid() {
                     Outcome::Panic(p) => Err(format!("the line {:?} through columns of every type over loose captures: panic {}", line, p)), _ => Ok(()) });
             }
         }
+    }
+    // whatever the local time zone is: timestamps in the hour that is skipped / repeated when the clocks change, in zones that change at 02:00 / 03:00 and at midnight
+    // (this test runs its cases one after the other on one thread; TZ is put back afterwards)
+    {
+        let tdef = "CREATE TABLE t(line = '^ts=(\\\\d+)-(\\\\d+)-(\\\\d+) (\\\\d+):(\\\\d+):(\\\\d+)$', line[1], line[2], line[3], line[4], line[5], line[6] => ts TIMESTAMP, line[4] => h INT);";
+        let saved = std::env::var("TZ").ok();
+        for (zi, (zone, summer_noon_epoch)) in [("Europe/Stockholm", 1685613600i64), ("America/Havana", 1685635200), ("Australia/Lord_Howe", 1685583000), ("UTC", 1685620800)].iter().enumerate() {
+            std::env::set_var("TZ", zone);
+            std::thread::sleep(std::time::Duration::from_millis(1100));   // chrono looks at TZ again when its cached zone is older than a second
+            let in_effect = match run_opts(tdef, "SELECT EXTRACT(EPOCH FROM ts) AS e FROM t", &[b("ts=2023-06-01 12:00:00\n")], json_opts()) { Outcome::Lines(l, _) => l == vec![format!("{{\"e\":{}.0}}", summer_noon_epoch)], _ => false };
+            for (ti, stamp) in ["2023-10-29 02:30:00", "2023-10-29 02:00:00", "2023-10-29 03:00:00", "2023-03-26 02:30:00", "2023-03-26 03:00:00", "2021-11-07 00:30:00", "2021-11-07 00:00:00", "2021-03-14 00:30:00", "2023-04-02 01:45:00", "2023-10-01 02:15:00", "2023-06-01 12:00:00"].iter().enumerate() {
+                for (ei, expr) in ["date_trunc('hour', ts)", "date_trunc('minute', ts)", "date_trunc('second', ts)", "date_trunc('day', ts)", "date_trunc('month', ts)", "EXTRACT(HOUR FROM ts)", "EXTRACT(EPOCH FROM ts)", "ts - date_trunc('day', ts)",
+                                   "make_timestamp(EXTRACT(YEAR FROM ts), EXTRACT(MONTH FROM ts), EXTRACT(DAY FROM ts), h, 30, 0, 0)", "ts = '2023-10-29 02:30:00'", "date_trunc('hour', make_timestamp(2023, 10, 29, h, 30, 0, 0))"].iter().enumerate() {
+                    let (line, query) = (format!("ts={}\n", stamp), format!("SELECT {} AS v FROM t", expr));
+                    g.case(&format!("time-zone-{}-t{}-e{}", zi, ti, ei), move || {
+                        if !in_effect { return Err(format!("TZ={} is not in effect in this process: the grid cannot exercise local-time code", zone)); }
+                        match run_opts(tdef, &query, &[b(&line)], json_opts()) { Outcome::Panic(p) => Err(format!("TZ={}: {} on the timestamp {} panicked: {}", zone, query, stamp, p)), _ => Ok(()) }
+                    });
+                }
+            }
+        }
+        match saved { Some(v) => std::env::set_var("TZ", v), None => std::env::remove_var("TZ") }
+        std::thread::sleep(std::time::Duration::from_millis(1100));
     }
     // bytes that are not text
     for (i, bytes) in vec![vec![0xffu8, 0xfe, b'\n', b'a', b'=', b'1'], vec![0u8; 10], (0u8..=255).collect::<Vec<u8>>()].into_iter().enumerate() {
